@@ -20,8 +20,12 @@ from . import common, gen, c13_util
 
 ID = "C13"
 LEAN_MODULES = ["DclabModel.Properties.C13"]
-RULE = ("base files: seeded choice of write path x feature set (scalars / +image+index / "
-        "+fluorescence+trace) x event count; then 0, 1 or 2 seeded corruptions out of 20 kinds "
+RULE = ("base files: seeded choice of write path (writer, writer HISTORY = portions + re-open in "
+        "append / replace mode re-storing all or some features incl. index, export, export of a "
+        "feature SUBSET incl. none (basins only) with all / some / no events selected, compress, "
+        "repack, condense, split, join) x feature set (scalars / +image+index / "
+        "+fluorescence+trace) x event count; 20% of the files are additionally checked as opened "
+        "dataset after every config section was read; then 0, 1 or 2 seeded corruptions out of 20 kinds "
         "(truncate/extend a feature or trace, event count +-k or removed, ROI x/y, unknown "
         "feature, 'def', delete one mandatory key or the whole imaging section, permute / shift "
         "/ shorten index, channel/laser/sample counts, channel name removed, laser power 0, "
@@ -60,31 +64,86 @@ FEATSETS = {
     "fl": ["deform", "area_um", "fl1_max", "trace", "index"],
     "flimg": ["deform", "fl1_max", "fl2_max", "image", "trace"],
 }
-PATHS = ["writer", "export", "compress", "repack", "condense", "split", "join"]
+PATHS = ["writer", "history", "export", "export-subset", "compress", "repack", "condense", "split",
+         "join"]
 
 
 def write_base(path, fs, n, rid="rid-c13", t0=0):
-    meta = {}
-    feats = list(FEATSETS[fs])
-    if fs in ("fl", "flimg"):
-        flm = dict(FL_META)
-        if fs == "flimg":
-            flm.update({"channel count": 2, "channel 2 name": "PE"})
-        meta["fluorescence"] = flm
-    gen.make_rtdc(path, range(t0, t0 + n), feats=feats, trace_names=("fl1_raw", "fl1_median"),
+    meta = {k: v for k, v in base_meta(fs).items() if k == "fluorescence"}
+    gen.make_rtdc(path, range(t0, t0 + n), feats=list(FEATSETS[fs]),
+                  trace_names=("fl1_raw", "fl1_median"),
                   logs={"verif": ["line one", "line two"]}, meta=meta, rid=rid)
     return path
 
 
+class ExportRaised(Exception):
+    """dclab's export refused the request (not the integrity checker's business)"""
+
+
+def feature_data(fs, toks):
+    """name -> data for every feature of a feature set (index is enumerated by the writer)"""
+    out = {}
+    for f in FEATSETS[fs]:
+        if f == "index":
+            out[f] = np.arange(1, len(toks) + 1)
+        elif f == "trace":
+            out[f] = gen.trace_dict(("fl1_raw", "fl1_median"), toks)
+        else:
+            out[f] = gen.rows(f, toks)
+    return out
+
+
+def base_meta(fs):
+    m = copy.deepcopy(gen.BASE_META)
+    m["experiment"]["run identifier"] = "rid-c13"
+    if fs in ("fl", "flimg"):
+        flm = dict(FL_META)
+        if fs == "flimg":
+            flm.update({"channel count": 2, "channel 2 name": "PE"})
+        m["fluorescence"] = flm
+    return m
+
+
+def write_history(path, fs, ops):
+    """writer history: first op writes the file, later ops re-open it in append / replace mode"""
+    dclab = common.import_dclab()
+    n = 0
+    for i, op in enumerate(ops):
+        kind, k = op[0], op[1]
+        mode = "reset" if i == 0 else ("replace" if kind.startswith("replace") else "append")
+        with dclab.RTDCWriter(path, mode=mode) as hw:
+            if i == 0:
+                hw.store_metadata(base_meta(fs))
+            if kind == "append":                      # k more events, optionally in two portions
+                cuts = [n, n + k] if len(op) < 3 or not op[2] or k < 2 else [n, n + k // 2, n + k]
+                for a, b in zip(cuts[:-1], cuts[1:]):
+                    for f, d in feature_data(fs, range(a, b)).items():
+                        hw.store_feature(f, d)
+                n += k
+            elif kind == "replace":                   # every feature stored again with k events
+                for f, d in feature_data(fs, range(k)).items():
+                    hw.store_feature(f, d)
+                n = k
+            elif kind == "replace_some":              # some features stored again, same length
+                data = feature_data(fs, range(n))
+                for f in op[2]:
+                    if f in data:
+                        hw.store_feature(f, data[f])
+    return path
+
+
 def make_base(ctx, wd, spec):
-    """spec = (write path, feature set, n); returns the path of the produced file"""
+    """spec = (write path, feature set, n, extra); returns the path of the produced file"""
     dclab = common.import_dclab()
     from dclab import cli
-    wpath, fs, n = spec
+    wpath, fs, n = spec[:3]
+    extra = spec[3] if len(spec) > 3 else {}
     src = wd / "src.rtdc"
     out = wd / "base.rtdc"
     if wpath == "writer":
         return write_base(out, fs, n)
+    if wpath == "history":
+        return write_history(out, fs, extra["ops"])
     if wpath == "export":
         write_base(src, fs, n + 3)
         with dclab.new_dataset(src) as ds:
@@ -92,6 +151,24 @@ def make_base(ctx, wd, spec):
             ds.apply_filter()
             feats = [f for f in ds.features_innate]
             ds.export.hdf5(out, features=feats, filtered=True, override=True)
+        return out
+    if wpath == "export-subset":
+        write_base(src, fs, n)
+        with dclab.new_dataset(src) as ds:
+            sel = extra.get("select", "all")
+            if sel == "none":
+                ds.filter.manual[:] = False
+            elif sel == "some":
+                ds.filter.manual[::2] = False
+            ds.apply_filter()
+            try:
+                import warnings
+                with warnings.catch_warnings():
+                    warnings.simplefilter("ignore")
+                    ds.export.hdf5(out, features=list(extra["subset"]), filtered=sel != "all",
+                                   basins=bool(extra.get("basins")), override=True)
+            except Exception as e:  # noqa
+                raise ExportRaised(f"{type(e).__name__}: {e}")
         return out
     if wpath in ("compress", "repack", "condense"):
         write_base(src, fs, n)
@@ -109,15 +186,36 @@ def make_base(ctx, wd, spec):
         m = {"experiment": {"time": "10:54:11", "run index": 2}}
         feats = list(FEATSETS[fs])
         if fs in ("fl", "flimg"):
-            flm = dict(FL_META)
-            if fs == "flimg":
-                flm.update({"channel count": 2, "channel 2 name": "PE"})
-            m["fluorescence"] = flm
+            m["fluorescence"] = base_meta(fs)["fluorescence"]
         gen.make_rtdc(b, range(50, 50 + n - n // 2 - 1 + 1), feats=feats,
                       trace_names=("fl1_raw", "fl1_median"), meta=m, rid="rid-c13")
         cli.join(path_out=out, paths_in=[a, b])
         return out
     raise ValueError(wpath)
+
+
+def gen_extra(rng, wpath, fs, n):
+    """seeded parameters of the write paths that have some"""
+    if wpath == "export-subset":
+        feats = list(FEATSETS[fs])
+        k = rng.choice([0, 1, 1, 2, 3, len(feats)])
+        subset = sorted(rng.sample(feats, min(k, len(feats))))
+        sel = rng.choice(["all", "all", "some", "none"])
+        basins = (not subset) or rng.random() < 0.4
+        return {"subset": subset, "select": sel, "basins": basins}
+    if wpath == "history":
+        ops = [["append", rng.randint(2, n), rng.random() < 0.5]]
+        for _ in range(rng.randint(1, 3)):
+            r = rng.random()
+            if r < 0.45:
+                ops.append(["replace", rng.randint(2, n + 3)])
+            elif r < 0.75:
+                ops.append(["append", rng.randint(1, 5), rng.random() < 0.5])
+            else:
+                feats = list(FEATSETS[fs])
+                ops.append(["replace_some", 0, sorted(rng.sample(feats, rng.randint(1, len(feats))))])
+        return {"ops": ops}
+    return {}
 
 
 # ---------------------------------------------------------------------------------------
@@ -156,8 +254,11 @@ def important_keys(fl):
 def gen_corruption(rng, h_info):
     """choose one corruption applicable to the file; returns (kind, args…)"""
     feats, traces, fl, n = h_info["feats"], h_info["traces"], h_info["fl"], h_info["n"]
-    kinds = ["trunc", "extend", "evcount", "evdel", "roi", "unknown", "defname", "delkey",
-             "delkey", "nonpos", "extlink", "evcount"]
+    kinds = ["evcount", "evdel", "roi", "unknown", "defname", "delkey", "delkey", "nonpos",
+             "extlink", "evcount"]
+    scal = [f for f in feats if f not in ("trace",) and not f.startswith("basinmap")]
+    if scal and n > 3:
+        kinds += ["trunc", "extend"]
     if "image" in feats:
         kinds += ["roi", "delimaging"]
     if "index" in feats:
@@ -169,7 +270,6 @@ def gen_corruption(rng, h_info):
     if fl and traces:
         kinds += ["samples", "trtrunc"]
     k = rng.choice(kinds)
-    scal = [f for f in feats if f not in ("trace",)]
     if k in ("trunc", "extend"):
         return (k, rng.choice(scal), rng.randint(1, 3))
     if k == "evcount":
@@ -184,6 +284,8 @@ def gen_corruption(rng, h_info):
         return (k,) + rng.choice([("imaging", "frame rate"), ("imaging", "pixel size"),
                                   ("setup", "channel width"), ("setup", "flow rate")]) \
             + (rng.choice([0.0, -1.5]),)
+    if k == "permindex" and n < 2:
+        return ("shiftindex",)
     if k == "permindex":
         i = rng.randrange(n - 1)
         return (k, i, rng.randrange(i + 1, n))
@@ -202,7 +304,7 @@ def expected_cues(op, info):
     if k == "trtrunc":
         return ["traceSize:" + op[1]]
     if k == "evcount":
-        return ["featSize:" + f for f in info["feats"] if f != "trace"]
+        return ["featSize:" + f for f in info["feats"] if f != "trace" and info["known"](f)]
     if k == "evdel":
         return ["missingKey:experiment:event%20count"]
     if k == "roi":
@@ -214,7 +316,7 @@ def expected_cues(op, info):
     if k == "delimaging":
         return ["missingSection:imaging"]
     if k in ("permindex", "shiftindex", "addindex"):
-        return ["indexNotEnumerated"]
+        return ["indexNotEnumerated"] if info["n"] else []
     if k == "chancount" or k == "delchan":
         return ["channelCount"]
     if k == "lasercount" or k == "power0":
@@ -232,7 +334,8 @@ def apply_corruption(path, op, wd):
     import h5py
     k = op[0]
     with h5py.File(path, "a") as h:
-        ev = h["events"]
+        ev = h.require_group("events")
+        n0 = nrows(h)
         if k == "trunc":
             replace_ds(h, "events/" + op[1], ev[op[1]][:-op[2]])
         elif k == "extend":
@@ -251,12 +354,10 @@ def apply_corruption(path, op, wd):
                 h.attrs[key] = int(h.attrs[key]) + op[2]
         elif k == "unknown":
             if "peter" not in ev:
-                first = [f for f in sorted(ev) if isinstance(ev[f], h5py.Dataset)][0]
-                ev.create_dataset("peter", data=np.arange(ev[first].shape[0], dtype=float))
+                ev.create_dataset("peter", data=np.arange(n0, dtype=float))
         elif k == "defname":
             if "def" not in ev:
-                first = [f for f in sorted(ev) if isinstance(ev[f], h5py.Dataset)][0]
-                ev.create_dataset("def", data=np.arange(ev[first].shape[0], dtype=float))
+                ev.create_dataset("def", data=np.arange(n0, dtype=float))
         elif k == "delkey":
             h.attrs.pop(f"{op[1]}:{op[2]}", None)
         elif k == "delimaging":
@@ -274,8 +375,7 @@ def apply_corruption(path, op, wd):
                 replace_ds(h, "events/index", ev["index"][:] + 1)
         elif k == "addindex":
             if "index" not in ev:
-                first = [f for f in sorted(ev) if isinstance(ev[f], h5py.Dataset)][0]
-                ev.create_dataset("index", data=np.arange(ev[first].shape[0], dtype=np.uint32))
+                ev.create_dataset("index", data=np.arange(n0, dtype=np.uint32))
         elif k in ("chancount", "lasercount", "samples"):
             key = {"chancount": "fluorescence:channel count",
                    "lasercount": "fluorescence:laser count",
@@ -290,8 +390,7 @@ def apply_corruption(path, op, wd):
         elif k == "extlink":
             ext = wd / "ext.h5"
             with h5py.File(ext, "w") as e:
-                first = [f for f in sorted(ev) if isinstance(ev[f], h5py.Dataset)][0]
-                e["x"] = np.arange(ev[first].shape[0], dtype=float) + 1
+                e["x"] = np.arange(n0, dtype=float) + 1
             if "area_cvx" not in ev:
                 ev["area_cvx"] = h5py.ExternalLink(str(ext), "/x")
         elif k == "nonpos":
@@ -300,15 +399,40 @@ def apply_corruption(path, op, wd):
             raise ValueError(k)
 
 
+def nrows(h):
+    """rows of the first stored feature dataset, else the event count, else 0"""
+    import h5py
+    ev = h.get("events", {})
+    for f in sorted(ev):
+        if isinstance(ev[f], h5py.Dataset):
+            return int(ev[f].shape[0])
+    return int(h.attrs.get("experiment:event count", 0))
+
+
 def file_info(path):
     import h5py
     with h5py.File(path, "r") as h:
-        ev = h["events"]
+        ev = h.get("events", {})
         feats = sorted(ev.keys())
         traces = sorted(ev["trace"].keys()) if "trace" in ev else []
-        first = [f for f in feats if isinstance(ev[f], h5py.Dataset)][0]
-        return {"feats": feats, "traces": traces, "n": ev[first].shape[0],
+        from dclab import definitions as dfn
+        return {"feats": feats, "traces": traces, "n": nrows(h), "known": dfn.feature_exists,
                 "fl": any(f in ev for f in ("fl1_max", "fl2_max", "fl3_max"))}
+
+
+def check_instance(path):
+    """check an opened dataset whose configuration sections were all read before"""
+    dclab = common.import_dclab()
+    from dclab import definitions as dfn
+    from dclab.rtdc_dataset.check import check_dataset
+    try:
+        with dclab.new_dataset(path, enable_basins=False) as ds:   # as the checker opens paths
+            for sec in dfn.config_keys:
+                _ = ds.config[sec]
+            v, a, i = check_dataset(ds)
+        return c13_util.cue_ids(v)
+    except Exception as e:  # noqa
+        return "exc:" + type(e).__name__ + ":" + common.err_class(e)
 
 
 def check(path):
@@ -321,22 +445,64 @@ def check(path):
         return "exc:" + type(e).__name__ + ":" + common.err_class(e), 0
 
 
+def same_modulo_sections(v_path, v_inst):
+    """An opened dataset whose config sections were read has every section, so a file-level
+    'missing section' cue becomes the 'missing key' cues of that section; nothing else may differ"""
+    if not isinstance(v_inst, list):
+        return False
+    secs = [c.split(":")[1] for c in v_path if c.startswith("missingSection:")]
+    a = [c for c in v_path if not c.startswith("missingSection:")]
+    b = list(v_inst)
+    for sec in secs:
+        keys = [c for c in b if c.startswith(f"missingKey:{sec}:")]
+        if not keys:
+            return False
+        b = [c for c in b if c not in keys]
+    return sorted(a) == sorted(b)
+
+
+def partial_fl_subset(spec):
+    """F30: the export keeps some but not all of the stored fluorescence channels"""
+    if spec[0] != "export-subset":
+        return False
+    stored = [f for f in FEATSETS[spec[1]] if f in ("fl1_max", "fl2_max", "fl3_max")]
+    kept = [f for f in spec[3]["subset"] if f in stored]
+    return 0 < len(kept) < len(stored)
+
+
 def run_case(ctx, idx, spec, corr):
-    """returns dict with impl answers and protocol lines"""
+    """returns dict with impl answers and protocol lines; `corr` is a list of corruptions or
+    ("draw", k, seed): k corruptions drawn for the file actually produced"""
+    import random
     common.import_dclab()
     from dclab import cli
     wd = ctx.workdir / f"case{idx}"
     if wd.exists():
         shutil.rmtree(wd)
     wd.mkdir()
-    res = {"spec": spec, "corr": corr, "problems": []}
+    res = {"spec": spec, "corr": [], "problems": []}
     try:
         p = make_base(ctx, wd, spec)
+    except ExportRaised as e:
+        ctx.stat("export_refused")
+        ctx.note(f"export.hdf5 refused a request of the generator (not a C13 matter): {e}"[:160])
+        shutil.rmtree(wd, ignore_errors=True)
+        return res
     except Exception as e:  # noqa
         res["problems"].append(("spec", f"write path {spec[0]} raised {e!r}"[:300]))
+        shutil.rmtree(wd, ignore_errors=True)
         return res
     info = file_info(p)
-    res["info"] = info
+    res["info"] = {k: v for k, v in info.items() if k != "known"}
+    if corr and corr[0] == "draw":
+        rng = random.Random(f"c13-{corr[2]}")
+        drawn = []
+        for _ in range(corr[1]):
+            op = gen_corruption(rng, info)
+            if op[0] not in [o[0] for o in drawn]:
+                drawn.append(op)
+        corr = drawn
+    res["corr"] = corr
     for op in corr:
         apply_corruption(p, op, wd)
     v, nal = check(p)
@@ -345,17 +511,34 @@ def run_case(ctx, idx, spec, corr):
     res["lines"] = c13_util.describe(p) + ["viol", "violcopy", "violcompress", "oldindexraises",
                                            f"exit {nal} {len(v) if isinstance(v, list) else 0}"]
     if not isinstance(v, list):
-        res["problems"].append(("spec", f"check_dataset raised {v} instead of reporting "
-                                        f"violations (corruptions {corr})"))
+        count_removed = any(o[0] == "evdel" or o[:3] == ("delkey", "experiment", "event count")
+                            for o in corr)
+        if count_removed and v.startswith("exc:ValueError") and info["n"] == 0:
+            res["size_unknown"] = True          # F36, confirmed against the model in `judge`
+        else:
+            res["problems"].append(("spec", f"check_dataset raised {v} instead of reporting "
+                                            f"violations (write path {spec[0]}, corruptions {corr})"))
     else:
         if not corr and v:
-            res["problems"].append(("spec", f"file written through '{spec[0]}' ({spec[1]}, "
-                                            f"complete metadata) has violations {v[:4]}"))
+            if partial_fl_subset(spec) and v == ["channelCount"]:
+                ctx.known("F30", "export of a feature subset that keeps only some of the stored "
+                                 "fl?_max features copies 'fluorescence:channel count' unchanged: "
+                                 "dclab's own output has the violation 'channel count inconsistent'")
+            else:
+                res["problems"].append(("spec", f"file written through '{spec[0]}' ({spec[1:]}, "
+                                                f"complete metadata) has violations {v[:4]}"))
         for op in corr:
             for cue in expected_cues(op, info):
                 if cue not in v and applicable(op, corr, info):
                     res["problems"].append(
                         ("spec", f"corruption {op} is not reported: cue {cue} missing from {v[:6]}"))
+        if len(spec) > 3 and spec[3].get("instance"):
+            vi = check_instance(p)
+            ctx.stat("instance_checks")
+            if not same_modulo_sections(v, vi):
+                res["problems"].append(("spec", f"checking the opened dataset (config sections "
+                                                f"read before) gives {str(vi)[:200]}, checking "
+                                                f"the path gives {v[:6]}"))
     # copies
     for task in ("repack", "compress"):
         out = wd / f"{task}.rtdc"
@@ -363,7 +546,7 @@ def run_case(ctx, idx, spec, corr):
             getattr(cli, task)(path_in=p, path_out=out)
             res[task] = check(out)[0]
         except Exception as e:  # noqa
-            res[task] = "exc:" + type(e).__name__
+            res[task] = "exc:" + type(e).__name__ + ":" + str(e)[:80]
     shutil.rmtree(wd, ignore_errors=True)
     return res
 
@@ -441,6 +624,13 @@ def judge(ctx, res, answers):
             want = 3 if res["alerts"] and v else 1 if res["alerts"] else 2 if v else 0
             if str(want) != mexit:
                 mirror.append(("exit code", want, mexit))
+        elif res.get("size_unknown"):
+            if mv == "raises":
+                ctx.known("F36", "a file without 'experiment:event count' and without a non-empty "
+                                 "feature cannot be sized: check_dataset raises ValueError instead "
+                                 "of reporting the missing key")
+            else:
+                mirror.append(("check_dataset", v, mv))
         elif oldraise == "1":
             ctx.stat("F13_old_behaviour_seen")
     res["mirror"] = mirror
@@ -449,32 +639,31 @@ def judge(ctx, res, answers):
 
 def gen_cases(ctx):
     cases = []
-    # (A) every write path x feature set, uncorrupted
+    rng = ctx.rng
+
+    def mk(wp, fs, n=None):
+        n = n or rng.randint(6, 14)
+        extra = gen_extra(rng, wp, fs, n)
+        if rng.random() < 0.2:
+            extra["instance"] = True
+        return (wp, fs, n, extra)
+    # (A) every write path x feature set, uncorrupted; parameterised paths several times
     for wp in PATHS:
         for fs in FEATSETS:
-            cases.append(((wp, fs, ctx.rng.randint(6, 14)), []))
+            for _ in range(3 if wp in ("export-subset", "history") else 1):
+                cases.append((mk(wp, fs), []))
     # F13 / F23 recorded inputs
-    cases.append((("writer", "image", 7), [("evcount", 2)]))
-    cases.append((("writer", "image", 7), [("trunc", "index", 2)]))
-    cases.append((("writer", "plain", 8), [("unknown",)]))
+    cases.append((("writer", "image", 7, {}), [("evcount", 2)]))
+    cases.append((("writer", "image", 7, {}), [("trunc", "index", 2)]))
+    cases.append((("writer", "plain", 8, {}), [("unknown",)]))
     # (B) seeded corruptions
-    nb = ctx.n(150, 1500)
+    nb = ctx.n(120, 1500)
     for i in range(nb):
-        wp = ctx.rng.choice(PATHS if i % 3 == 0 else ["writer", "writer", "export", "compress"])
-        fs = ctx.rng.choice(list(FEATSETS))
-        n = ctx.rng.randint(6, 14)
-        feats = list(FEATSETS[fs])
-        if wp == "condense":
-            feats = [f for f in feats if f not in ("image", "trace")] + ["index"]
-        info = {"feats": sorted(set(feats)), "traces": ["fl1_median", "fl1_raw"] if "trace" in feats
-                else [], "fl": fs in ("fl", "flimg"), "n": n}
-        k = 1 if ctx.rng.random() < 0.55 else 2
-        corr = []
-        for _ in range(k):
-            op = gen_corruption(ctx.rng, info)
-            if op[0] not in [o[0] for o in corr]:
-                corr.append(op)
-        cases.append(((wp, fs, n), corr))
+        wp = rng.choice(PATHS if i % 3 == 0 else ["writer", "history", "export", "export-subset",
+                                                   "compress"])
+        fs = rng.choice(list(FEATSETS))
+        k = rng.choice([0, 1, 1, 1, 2, 2])
+        cases.append((mk(wp, fs), ("draw", k, rng.randrange(10**9))))
     return cases
 
 
@@ -483,10 +672,13 @@ def run(ctx, only=None):
     results = []
     for i, (spec, corr) in enumerate(cases):
         spec = tuple(spec)
-        corr = [tuple(c) for c in corr]
+        if not (corr and corr[0] == "draw"):
+            corr = [tuple(c) for c in corr]
         res = run_case(ctx, i, spec, corr)
+        corr = res["corr"]
         results.append(res)
-        ctx.case((spec[:2], tuple(corr)), nontrivial=bool(corr),
+        ctx.case((spec[:2], json.dumps(spec[3] if len(spec) > 3 else {}, sort_keys=True),
+                  tuple(corr)), nontrivial=bool(corr) or spec[0] in ("history", "export-subset"),
                  sample={"write_path": spec[0], "features": spec[1], "corruptions": corr,
                          "violations": res.get("v")} if corr and len(ctx.samples) < 3 else None)
         ctx.stat("path:" + spec[0])
